@@ -58,10 +58,27 @@ def check(case, ev):
     poly = sy.poly
     n = sy.ncols
 
-    cb = pc.as_list(call(poly.column_bounds, what="column_bounds"), "column_bounds()", (2, n))
-    tb = pc.as_list(call(poly.tighten_column_bounds, what="tighten_column_bounds"), "tighten_column_bounds()", (2, n))
-    rb = pc.as_list(call(poly.row_bounds, what="row_bounds"), "row_bounds()", (sy.nrows, 2))
-    nrc = pc.as_list(call(lambda: poly.n_row_combinations, what="n_row_combinations"), "n_row_combinations", (sy.nrows,))
+    # The four queries are put to ONE object in an order derived from the case, and then a second time: the answers
+    # must not depend on what was asked before (a cached or aliased intermediate would show here).
+    queries = {
+        "cb": lambda: pc.as_list(call(poly.column_bounds, what="column_bounds"), "column_bounds()", (2, n)),
+        "tb": lambda: pc.as_list(call(poly.tighten_column_bounds, what="tighten_column_bounds"), "tighten_column_bounds()", (2, n)),
+        "rb": lambda: pc.as_list(call(poly.row_bounds, what="row_bounds"), "row_bounds()", (sy.nrows, 2)),
+        "nrc": lambda: pc.as_list(call(lambda: poly.n_row_combinations, what="n_row_combinations"), "n_row_combinations", (sy.nrows,)),
+    }
+    import itertools as _it
+    from vf.core import digest as _digest
+    order = list(_it.permutations(sorted(queries)))[int(_digest(case), 16) % 24]
+    first = {k: queries[k]() for k in order}
+    second = {k: queries[k]() for k in reversed(order)}
+    for k in order:
+        if first[k] != second[k]:
+            raise Violation(f"{k} answers differently when asked again on the same polyhedron (order {order}): {first[k]} then {second[k]}; "
+                            f"rows={sy.rows} bounds={sy.bounds}")
+    now = [(int(b_), [int(x) for x in a_]) for b_, a_ in pc.plain_rows(poly)]
+    if now != [(int(b_), [int(x) for x in a_]) for b_, a_ in sy.rows]:
+        raise Violation(f"the polyhedron's matrix changed while it was queried: {now} vs rows {sy.rows}")
+    cb, tb, rb, nrc = first["cb"], first["tb"], first["rb"], first["nrc"]
 
     # column_bounds: the declared bounds
     for j, (lo, hi) in enumerate(sy.bounds):
